@@ -79,6 +79,20 @@ func checkNALU(n N) error {
 	if !bytes.Equal(out, want) {
 		return fmt.Errorf("NAL %02x.. re-marshals to %02x.. (%d bytes, want %d)", b[0], out[0], len(out), len(want))
 	}
+	// the same object decodes another unit afterwards (a reader that reuses its NALU)
+	r := avc.NewNALU()
+	if err := r.UnmarshalBinary(append([]byte{0x65}, rtmpx.Fill(4+n.Len, 99)...)); err != nil {
+		return err
+	}
+	if err := r.UnmarshalBinary(b); err != nil {
+		return fmt.Errorf("second unmarshal into the same NALU: %v", err)
+	}
+	if err := sameNALU(r, n); err != nil {
+		return fmt.Errorf("NALU object reused for a second unit: %v", err)
+	}
+	if rb, err := r.MarshalBinary(); err != nil || !bytes.Equal(rb, append([]byte{b[0] & 0x7f}, b[1:]...)) || r.Size() != len(b) {
+		return fmt.Errorf("NALU object reused for a second unit marshals to %d bytes (Size %d), want %d", len(rb), r.Size(), len(b))
+	}
 	// value -> bytes -> value
 	v := n.nalu()
 	vb, err := v.MarshalBinary()
